@@ -597,6 +597,60 @@ func init() {
 			return st
 		}
 		switch it.Mode {
+		case "live":
+			// a real node on a BadgerStore with the default cache (nothing is evicted): after every tenth step and at
+			// the end, the database copy of every event the node knows must be the persisted form of the object the
+			// node works with (body, signature, wire information, topological index, ancestor / descendant coordinates)
+			sc := sched.ScenarioByName(it.Source)
+			sc.Cfg.Badger = map[int]bool{0: true}
+			sc.Cfg.Dir = scratchDir()
+			x := sched.NewExec(sc, nil)
+			x.NoDigest = true
+			compare := func(step int) {
+				n0 := x.C.Nodes[0]
+				bs, ok := n0.Store.(*hg.BadgerStore)
+				if !ok || n0.Down {
+					return
+				}
+				rep := bs.RepertoireByID()
+				for id, last := range bs.KnownEvents() {
+					p, ok := rep[id]
+					if !ok {
+						continue
+					}
+					for i := 0; i <= last; i++ {
+						hx, err := bs.ParticipantEvent(p.PubKeyString(), i)
+						if err != nil {
+							continue
+						}
+						ce, err := bs.VInmem().GetEvent(hx)
+						if err != nil {
+							continue // evicted: nothing to compare with
+						}
+						de, err := bs.VDbGetEvent(hx)
+						res.Reads++
+						if err != nil {
+							viol("live:event-not-in-database", fmt.Sprintf("%s step %d: event %s (participant %d index %d) is in the node's cache but not in its database: %v", it.Source, step, hx[:10], id, i, err), map[string]interface{}{"source": it.Source, "step": step})
+							continue
+						}
+						a, _ := ce.MarshalDB()
+						b, _ := de.MarshalDB()
+						if string(a) != string(b) {
+							viol("live:database-copy-stale", fmt.Sprintf("%s step %d: the database copy of event %s (participant %d index %d) is not the persisted form of the event the node holds: %s", it.Source, step, hx[:10], id, i, firstDiff(string(a), string(b))), map[string]interface{}{"source": it.Source, "step": step})
+						}
+					}
+				}
+			}
+			for k, a := range sc.Seed {
+				x.Step(a)
+				if k%10 == 9 {
+					compare(k)
+				}
+			}
+			x.FairSuffix(40)
+			compare(len(sc.Seed))
+			res.Seqs++
+			x.Close()
 		case "replay":
 			ops := recordOps(it.Source)
 			os.RemoveAll(dir)
@@ -719,6 +773,11 @@ func init() {
 				items = append(items, StoreItem{Mode: "replay", Source: s, Cache: c})
 			}
 		}
+		// live nodes: histories with silent / lagging / joining participants (a participant's first descendant of an
+		// event may arrive long after the event was committed)
+		for _, s := range []string{scStatic3, scJoin3, scLeave4, scSilent4, scSilent5, scLate4, scLaggards4, scLaggards7, scRejoin4, "slow:4:4:1:120"} {
+			items = append(items, StoreItem{Mode: "live", Source: s})
+		}
 		nops := map[string]int{}
 		for _, s := range sources {
 			nops[s] = len(recordOps(s))
@@ -806,8 +865,27 @@ func init() {
 		cov["counters"] = tot.Ctr
 		cov["exhaustive"] = handed == len(items)
 		cov["samples"] = []interface{}{tot.Sample}
-		cov["rule"] = fmt.Sprintf("(a) the exact Store write sequences of node 0 in the static3 and join3to4 E1 seeds and of a joiner that fast-forwards (Reset from a frame, then a further validator-set change) (values snapshotted in persisted form at call time) replayed on a real BadgerStore with cache sizes 2,3,4,5,7,10,11,100,10000 (odd and even: the rolling windows halve themselves) against a map/list model, with the complete read battery (GetEvent + database copy, ParticipantEvents from several skips, ParticipantEvent for every index, LastEventFrom, KnownEvents, topological listing, rounds, blocks, frames, peer sets, repertoire, roots with their content) after writes, and close+reopen after every write position (one run per position, database-backed reads only); (b) all sequences of depth %d over the direct alphabet {event p0, event p1, update last event of p0, block 0 / block 1 with growing signatures, round update, frame, close+reopen} with cache 2. states = sequences + distinct direct operation strings", depth)
+		cov["rule"] = fmt.Sprintf("(a) the exact Store write sequences of node 0 in the static3 and join3to4 E1 seeds and of a joiner that fast-forwards (Reset from a frame, then a further validator-set change) (values snapshotted in persisted form at call time) replayed on a real BadgerStore with cache sizes 2,3,4,5,7,10,11,100,10000 (odd and even: the rolling windows halve themselves) against a map/list model, with the complete read battery (GetEvent + database copy, ParticipantEvents from several skips, ParticipantEvent for every index, LastEventFrom, KnownEvents, topological listing, rounds, blocks, frames, peer sets, repertoire, roots with their content) after writes, and close+reopen after every write position (one run per position, database-backed reads only); (c) real nodes on a BadgerStore in 10 histories with silent, lagging, leaving and re-joining participants: after every tenth step the database copy of every cached event must be the persisted form of the cached object; (b) all sequences of depth %d over the direct alphabet {event p0, event p1, update last event of p0, block 0 / block 1 with growing signatures, round update, frame, close+reopen} with cache 2. states = sequences + distinct direct operation strings", depth)
 		rep.Assumptions = []string{"'value' = the persisted representation (body, signature, wire ids, topological index, coordinates); in-memory memo fields that MarshalDB omits by design are not compared", "after a reopen without bootstrap only database-backed reads are defined"}
 		return rep.Finish()
 	}
+}
+
+func firstDiff(a, b string) string {
+	i := 0
+	for i < len(a) && i < len(b) && a[i] == b[i] {
+		i++
+	}
+	lo := i - 40
+	if lo < 0 {
+		lo = 0
+	}
+	ha, hb := i+60, i+60
+	if ha > len(a) {
+		ha = len(a)
+	}
+	if hb > len(b) {
+		hb = len(b)
+	}
+	return fmt.Sprintf("held …%s… / stored …%s…", a[lo:ha], b[lo:hb])
 }
